@@ -112,6 +112,16 @@ func c09Catalogue(t *sim.T, m *gen.StaticModel, tb *gen.Table, variant int) []in
 		return fmt.Sprintf("%s_fresh_%d", p, variant)
 	}
 	pickU := func(xs []string) string { return xs[variant%len(xs)] }
+	// spoil: an unparseable value for a column. Every other variant derives it from the template row's own valid
+	// value (which the parser has typically seen a moment ago) by appending something invisible or tiny.
+	spoil := func(col string, fallback []string) string {
+		if i := tb.Col(col); i >= 0 && variant%2 == 1 {
+			if r := tmpl(); i < len(r) && r[i] != "" {
+				return r[i] + []string{"\x00", "\x00\x00", "x", "\u200b", "\x00 "}[(variant/2)%5]
+			}
+		}
+		return pickU(fallback)
+	}
 	some := func(ids []string) string {
 		if len(ids) == 0 {
 			return ""
@@ -146,6 +156,8 @@ func c09Catalogue(t *sim.T, m *gen.StaticModel, tb *gen.Table, variant int) []in
 		add("blank to_stop_id", "to_stop_id", "")
 		add("unknown from_stop_id", "from_stop_id", fresh("nostop"))
 		add("unknown to_stop_id", "to_stop_id", fresh("nostop"))
+		add("both stop ids unknown", "from_stop_id", fresh("nostop"), "to_stop_id", fresh("nostop")+"b")
+		add("both stop ids blank", "from_stop_id", "", "to_stop_id", "")
 	case "calendar.txt":
 		for _, id := range []string{fresh("svc"), some(m.ServiceIDs)} {
 			kind := "fresh service"
@@ -159,8 +171,8 @@ func c09Catalogue(t *sim.T, m *gen.StaticModel, tb *gen.Table, variant int) []in
 				}
 				add("blank "+c+" ("+kind+")", c, "", "service_id", id)
 			}
-			add("unparseable start_date ("+kind+")", "start_date", pickU(unparseableDates), "service_id", id)
-			add("unparseable end_date ("+kind+")", "end_date", pickU(unparseableDates), "service_id", id)
+			add("unparseable start_date ("+kind+")", "start_date", spoil("start_date", unparseableDates), "service_id", id)
+			add("unparseable end_date ("+kind+")", "end_date", spoil("end_date", unparseableDates), "service_id", id)
 		}
 	case "calendar_dates.txt":
 		for _, id := range []string{fresh("svc"), some(m.ServiceIDs)} {
@@ -170,8 +182,8 @@ func c09Catalogue(t *sim.T, m *gen.StaticModel, tb *gen.Table, variant int) []in
 			}
 			add("blank date ("+kind+")", "date", "", "service_id", id)
 			add("blank exception_type ("+kind+")", "exception_type", "", "service_id", id)
-			add("unparseable date ("+kind+")", "date", pickU(unparseableDates), "service_id", id)
-			add("unparseable exception_type ("+kind+")", "exception_type", pickU(unparseableNumbers), "service_id", id)
+			add("unparseable date ("+kind+")", "date", spoil("date", unparseableDates), "service_id", id)
+			add("unparseable exception_type ("+kind+")", "exception_type", spoil("exception_type", unparseableNumbers), "service_id", id)
 		}
 		add("blank service_id", "service_id", "")
 	case "trips.txt":
@@ -186,17 +198,19 @@ func c09Catalogue(t *sim.T, m *gen.StaticModel, tb *gen.Table, variant int) []in
 		add("blank stop_id", "stop_id", "")
 		add("unknown stop_id", "stop_id", fresh("nostop"))
 		add("blank stop_sequence", "stop_sequence", "")
-		add("unparseable stop_sequence", "stop_sequence", pickU(unparseableNumbers))
+		add("unparseable stop_sequence", "stop_sequence", spoil("stop_sequence", unparseableNumbers))
 		if tb.Col("arrival_time") >= 0 && tb.Col("departure_time") >= 0 {
 			add("both times blank", "arrival_time", "", "departure_time", "")
-			add("both times unparseable", "arrival_time", pickU(unparseableTimes), "departure_time", pickU(unparseableTimes))
+			add("both times unparseable", "arrival_time", spoil("arrival_time", unparseableTimes), "departure_time", spoil("departure_time", unparseableTimes))
+			add("one time unparseable, the other blank", "arrival_time", spoil("arrival_time", unparseableTimes), "departure_time", "")
+			add("one time blank, the other unparseable", "arrival_time", "", "departure_time", spoil("departure_time", unparseableTimes))
 		}
 	case "shapes.txt":
 		for _, c := range []string{"shape_id", "shape_pt_lat", "shape_pt_lon", "shape_pt_sequence"} {
 			add("blank "+c, c, "")
 		}
 		for _, c := range []string{"shape_pt_lat", "shape_pt_lon", "shape_pt_sequence"} {
-			add("unparseable "+c, c, pickU(unparseableNumbers))
+			add("unparseable "+c, c, spoil(c, unparseableNumbers))
 		}
 		add("shape_pt_sequence outside the 32-bit range", "shape_pt_sequence", pickU(outOfRangeInt32))
 	case "frequencies.txt":
@@ -204,10 +218,10 @@ func c09Catalogue(t *sim.T, m *gen.StaticModel, tb *gen.Table, variant int) []in
 			add("blank "+c, c, "")
 		}
 		add("unknown trip_id", "trip_id", fresh("notrip"))
-		add("unparseable headway_secs", "headway_secs", pickU(unparseableNumbers))
+		add("unparseable headway_secs", "headway_secs", spoil("headway_secs", unparseableNumbers))
 		add("headway_secs outside the 32-bit range", "headway_secs", pickU(outOfRangeInt32))
-		add("unparseable start_time", "start_time", pickU(unparseableTimes))
-		add("unparseable end_time", "end_time", pickU(unparseableTimes))
+		add("unparseable start_time", "start_time", spoil("start_time", unparseableTimes))
+		add("unparseable end_time", "end_time", spoil("end_time", unparseableTimes))
 	}
 	return out
 }
